@@ -152,7 +152,7 @@ def shapes(pat):
                oracle=("positions-union", [(t1, cols[t1][:2]), (t2, cols[t2][:2])], cols[t1][:2]))
     yield dict(name="union/list", ast=ins(un, tg, ["q", "p"]), scope=[t1, t2], target=tg, target_cols=TARGET_COLS[:3],
                oracle=("list-union", [(t1, cols[t1][:2]), (t2, cols[t2][:2])], ["q", "p"]))
-    # the wildcard against positional naming (finding D42-star-vs-positions): star + known target, star in a later union branch, star + explicit list
+    # the wildcard against positional naming (finding D46-star-vs-positions): star + known target, star in a later union branch, star + explicit list
     q = G.select([G.item(["star", []])], [G.from_expr(T(t1))])
     yield dict(name="star-vs-positions/known-target", ast=ins(q), scope=[t1], target=tg, target_cols=TARGET_COLS[:3], oracle=("star-positions", t1))
 
@@ -354,7 +354,7 @@ def check_oracles(sh, pat, known, res, base):
             want = sorted((f"{t}.{s}", f"{tg}.{m}") for s, m in zip(cols[t], meta))
             if P != want:
                 bad.append(("O5", f"INSERT without column list, `*` over known {t} into known {tg}: the target's known columns do not "
-                                  f"name the positions: {P} (expected {want})", "D42-star-vs-positions"))
+                                  f"name the positions: {P} (expected {want})", "D46-star-vs-positions"))
     return bad
 
 
@@ -504,8 +504,8 @@ def run(chk):
         st.c[f"known:{len(j['known'])}"] += 1
         bad = check_oracles(sh, j["pat"], j["known"], res, base) if j["pat"] != "random" else check_random(j, res, base)
         for orc, msg, cls in bad:
-            if cls == "D42-star-vs-positions" and "D42-star-vs-positions" in listed:
-                chk.known("D42-star-vs-positions"); d27_seen += 1
+            if cls == "D46-star-vs-positions" and "D46-star-vs-positions" in listed:
+                chk.known("D46-star-vs-positions"); d27_seen += 1
                 continue
             st.c["FAIL:" + orc + (":" + cls if cls else "")] += 1
             viol.append((k, orc, msg, cls))
